@@ -402,6 +402,14 @@ type nsHop struct {
 	Doc     int
 	Ctx     int
 	Consume int
+	Plain   bool // a navigator implementation WITHOUT the optional NamespaceURL method
+}
+
+func (h nsHop) nav(t *doc.Tree) xpath.NodeNavigator {
+	if h.Plain {
+		return doc.NewNav(t, h.Ctx, nil)
+	}
+	return doc.NewNavNS(t, h.Ctx, nil)
 }
 
 func (h nsHop) apply(e *xpath.Expr) eng.Outcome {
@@ -415,9 +423,9 @@ func (h nsHop) apply(e *xpath.Expr) eng.Outcome {
 		}()
 		var it *xpath.NodeIterator
 		if h.Op == "select" {
-			it = e.Select(doc.NewNavNS(t, h.Ctx, nil))
+			it = e.Select(h.nav(t))
 		} else {
-			v := e.Evaluate(doc.NewNavNS(t, h.Ctx, nil))
+			v := e.Evaluate(h.nav(t))
 			var ok bool
 			if it, ok = v.(*xpath.NodeIterator); !ok {
 				o = eng.FromValue(v, t)
@@ -443,21 +451,28 @@ func nsHistSpace() *explore.Space {
 		ns     map[string]string
 	}
 	var items []item
-	for _, s := range []string{"//p:b", "p:b", "*/p:b", "//p:b/@p:x", "count(//p:b)", "string(//p:b)", "//*[p:b]", "//p:b[1]", "//q:b | //p:b", "//p:b = '1'", "name(//p:b)", "//@p:x", "descendant::p:b", "//b/preceding-sibling::p:b"} {
+	for _, s := range []string{"//p:b", "p:b", "*/p:b", "//p:b/@p:x", "count(//p:b)", "string(//p:b)", "//*[p:b]", "//p:b[1]", "//q:b | //p:b", "//p:b = '1'", "name(//p:b)", "//@p:x", "descendant::p:b", "//b/preceding-sibling::p:b",
+		"namespace-uri(//p:b)", "//*[namespace-uri() = 'u1']", "namespace-uri()", "//*[namespace-uri(*) = 'u2']", "concat(name(*), '|', namespace-uri(*))"} {
 		items = append(items, item{s, false, nil}, item{s, true, map[string]string{"p": "u1", "q": "u2"}}, item{s, true, map[string]string{"p": "u2", "q": "u2"}})
 	}
 	var ops []nsHop
 	for d := range nsHistDocs {
 		for _, c := range []int{0, 1} {
 			for _, k := range []int{0, 1, -1} {
-				ops = append(ops, nsHop{"select", d, c, k}, nsHop{"evaluate", d, c, k})
+				ops = append(ops, nsHop{"select", d, c, k, false}, nsHop{"evaluate", d, c, k, false})
 			}
+		}
+	}
+	// the same compiled expression handed to a second navigator implementation
+	for d := range nsHistDocs {
+		for _, c := range []int{0, 1} {
+			ops = append(ops, nsHop{"select", d, c, -1, true}, nsHop{"evaluate", d, c, -1, true})
 		}
 	}
 	var probes []nsHop
 	for d := range nsHistDocs {
 		for _, c := range []int{0, 1} {
-			probes = append(probes, nsHop{"select", d, c, -1}, nsHop{"evaluate", d, c, -1})
+			probes = append(probes, nsHop{"select", d, c, -1, false}, nsHop{"evaluate", d, c, -1, false}, nsHop{"evaluate", d, c, -1, true})
 		}
 	}
 	compile := func(it item) *xpath.Expr {
